@@ -2,7 +2,12 @@
 
 package stage
 
-import "github.com/arm-doe/sts"
+import (
+	"time"
+
+	"github.com/arm-doe/sts"
+	"github.com/arm-doe/sts/verifhook"
+)
 
 // Exports for the verification harness in /verif (build tag "verif" only).
 
@@ -20,3 +25,52 @@ func VerifCompanionPartExists(cmp *sts.Partial, beg, end int64) bool {
 func VerifIsCompanionComplete(cmp *sts.Partial) bool {
 	return isCompanionComplete(cmp)
 }
+
+// VerifStopTimers stops the cleaning timer and every pending retry timer of
+// parked files so that an abandoned instance stays quiet.
+func (s *Stage) VerifStopTimers() {
+	s.cleanLock.Lock()
+	if s.cleanTimeout != nil {
+		s.cleanTimeout.Stop()
+	}
+	s.cleanLock.Unlock()
+	s.waitLock.Lock()
+	defer s.waitLock.Unlock()
+	for _, files := range s.wait {
+		for _, f := range files {
+			if f.wait != nil {
+				f.wait.Stop()
+			}
+		}
+	}
+}
+
+// VerifFireTimer acts as the retry timer of the parked file `name` firing now
+// (toWait's AfterFunc callback).  It reports whether such a timer was pending.
+func (s *Stage) VerifFireTimer(name string) bool {
+	var target *finalFile
+	s.waitLock.Lock()
+	for _, files := range s.wait {
+		for _, f := range files {
+			if f.name == name && f.wait != nil {
+				if f.wait.Stop() {
+					target = f
+				}
+			}
+		}
+	}
+	s.waitLock.Unlock()
+	if target == nil {
+		return false
+	}
+	s.logDebug("Attempting finalize again:", target.name)
+	verifhook.Point("stage.spawn.finalize", target.name, s.rootDir)
+	s.finalizeQueue(target)
+	return true
+}
+
+// VerifCleanStrays runs cleanStrays with the production threshold.
+func (s *Stage) VerifCleanStrays() { s.cleanStrays(time.Hour * 24) }
+
+// VerifCleanWaiting runs cleanWaiting.
+func (s *Stage) VerifCleanWaiting() { s.cleanWaiting() }
